@@ -232,7 +232,25 @@ def serialize(ob):
             keep0 = set(pick0)
             slices.append(to_smt2([h for i, h in enumerate(ob.hyps) if (not quant[i]) or i in keep0], ob.goal))
             prev_n = len(pick0)
-        for level in range(2):
+        # bounded expansion: repeatedly admit hypotheses that touch the current symbol set and introduce at most one new
+        # array symbol (the "bridges" between a havocked view and its pre-state), then re-apply the subset rule
+        allsyms = [array_symbols(h) for h in ob.hyps]
+        cur2 = set(cur)
+        seen_sizes = {len(pick0)}
+        for rnd in range(3):
+            grew = False
+            for i, sy in enumerate(allsyms):
+                if sy and (sy & cur2) and len(sy - cur2) == 1:
+                    cur2 |= sy
+                    grew = True
+            pickx = [i for i, (q, sy) in enumerate(zip(quant, syms)) if q and sy <= cur2]
+            if pickx and len(pickx) < nq and len(pickx) not in seen_sizes:
+                seen_sizes.add(len(pickx))
+                keepx = set(pickx)
+                slices.append(to_smt2([h for i, h in enumerate(ob.hyps) if (not quant[i]) or i in keepx], ob.goal))
+            if not grew:
+                break
+        for level in range(1):
             pick = [i for i, (q, sy) in enumerate(zip(quant, syms)) if q and (sy & cur)]
             if len(pick) == nq or len(pick) == prev_n:
                 break
@@ -249,6 +267,9 @@ def serialize_cover(named):
     n, f = named
     if isinstance(f, str):
         return (n, f)
+    if n.startswith("canary"):
+        # vacuity canary: ALL hypotheses (quantified ones included) at the end of the function must not be refutable
+        return (n, to_smt2(list(f), None))
     return (n, to_smt2([h for h in f if not has_quantifier(h)], None))
 
 
@@ -266,6 +287,32 @@ def has_quantifier(e):
     return False
 
 
+def _solve_instantiated(smt2, timeout_ms):
+    """own eager bounded quantifier instantiation (pyvc.instantiate): hypotheses are weakened to finitely many instances,
+    so only `unsat` is conclusive"""
+    try:
+        import z3 as Z
+        from . import instantiate as _inst
+        s = Z.Solver()
+        s.from_string(smt2)
+        A = list(s.assertions())
+        if len(A) < 2:
+            return "unknown"
+        forms = _inst.instantiate(A[:-1], Z.Not(A[-1]), rounds=3)
+        if not forms:
+            return "unknown"
+        s2 = Z.Solver()
+        for f in forms:
+            s2.add(f)
+        r, _, _, _ = _solve_cli(s2.to_smt2(), timeout_ms)
+        return r
+    except Exception:
+        if os.environ.get("PYVC_DEBUG"):
+            import traceback
+            traceback.print_exc()
+        return "unknown"
+
+
 def _pipeline(ob, timeout_ms, tac, retry_ms, use_cvc5):
     """one obligation, start to finish, inside a worker:  quantifier-free hypotheses -> relevance slices -> all
     hypotheses -> cvc5 -> retry.  `unsat` on a subset of the hypotheses is a proof; `sat` only counts on the full set."""
@@ -275,13 +322,19 @@ def _pipeline(ob, timeout_ms, tac, retry_ms, use_cvc5):
         r, model1, _, _ = _solve(ob.smt2_qf, timeout_ms, tac, True)
         if r == "unsat":
             return "proved", "z3", time.time() - t0, None, ""
-    for sm in ob.slices:
+    for k, sm in enumerate(ob.slices):
         for seed in (0, 1):
             r, _, _, _ = _solve(sm, min(timeout_ms, 4000), tac, False, seed)
             if r == "unsat":
                 return "proved", "z3", time.time() - t0, None, ""
             if r == "sat":
                 break
+        if k == 0 and os.environ.get("PYVC_NO_INST") != "1":
+            if _solve_instantiated(ob.smt2, min(timeout_ms, 15000)) == "unsat":
+                return "proved", "z3+inst", time.time() - t0, None, ""
+    if not ob.slices and ob.smt2_qf is not None and os.environ.get("PYVC_NO_INST") != "1":
+        if _solve_instantiated(ob.smt2, min(timeout_ms, 15000)) == "unsat":
+            return "proved", "z3+inst", time.time() - t0, None, ""
     # quantifier instantiation is sensitive to the search order: a small portfolio of seeds with short budgets is more
     # robust than one long run (a proof, when found, is found in milliseconds).  With a candidate counter-model from the
     # quantifier-free query the full query gets a short budget.
@@ -337,7 +390,7 @@ def check_sat(named_formulas, timeout_ms=10000):
     """vacuity guards: every formula list must be satisfiable.  returns list of (name, 'sat'|'unsat'|'unknown')"""
     ex = pool()
     named_formulas = [serialize_cover(c) for c in named_formulas]
-    futs = [(n, ex.submit(_solve, f, timeout_ms, None, False)) for n, f in named_formulas]
+    futs = [(n, ex.submit(_solve, f, 20000 if n.startswith("canary") else timeout_ms, None, False)) for n, f in named_formulas]
     return [(n, fu.result()[0]) for n, fu in futs]
 
 
